@@ -14,15 +14,19 @@ DROP = {"start", "prog.end"}
 def _schema_ok(e):
     ev, d = e["ev"], e["d"]
     try:
-        if ev in ("loop.wait", "clear.begin", "ntf.snap", "stop.join", "loop.end", "iter.end"):
+        if ev in ("loop.wait", "clear.begin", "ntf.snap", "stop.join", "stop.pool", "loop.end", "iter.end"):
             return d == 0
-        if ev in ("send.full", "ch.txlock", "ch.join", "chloop.wait", "chloop.exit"):
+        if ev in ("send.full", "ch.txlock", "ch.join", "chloop.wait", "chloop.exit", "chfwd.begin"):
             return isinstance(d["ch"], str)
         if ev in ("send.begin", "send.pop"):
             it = d["item"]
             if d["ch"].endswith("D"):
                 return isinstance(it, int)
             return isinstance(it["a"], int) and isinstance(it["st"], list)
+        if ev == "loop.wrote":
+            return isinstance(d["st"], list)
+        if ev == "eff.spawn":
+            return isinstance(d["n"], int)
         if ev == "send.end":
             return isinstance(d["ok"], int)
         if ev == "task.start":
